@@ -46,6 +46,24 @@ fn main() {
         Some("sim") => cmd_sim(&args[2..]),
         Some("bench") => cmd_bench(&args[2..]),
         Some("trace") => cmd_trace(&args[2..]),
+        Some("scenario") => {
+            // hqmc scenario <name> [property signature history]: prints the scenario, or a replay record
+            let sc = sim::scenarios::by_name(&args[2]).expect("unknown scenario");
+            if args.len() >= 6 {
+                let history = parse_history(&args[5]);
+                println!(
+                    "{}",
+                    serde_json::to_string_pretty(&serde_json::json!({
+                        "property": args[3], "signature": args[4], "engine": "sim",
+                        "replay": {"scenario": sc, "history": history},
+                    }))
+                    .unwrap()
+                );
+            } else {
+                println!("{}", serde_json::to_string_pretty(&sc).unwrap());
+            }
+            0
+        }
         Some("journal-all") => {
             let tier = args.get(2).cloned().unwrap_or_else(|| "quick".into());
             let (found, stats) = journal::run(&tier, std::time::Instant::now() + std::time::Duration::from_secs(1500));
